@@ -522,7 +522,7 @@ def run(ctx):
 
     # "a GET on any path": the connection builder is not given a limit that rejects well-formed requests (a cap on the read
     # buffer or on the header count turns a long path / many headers into 431 instead of the rendering)
-    LIMITS = ("max_buf_size", "max_headers")
+    LIMITS = ("max_buf_size", "max_headers", "set_linger", "set_zero_linger")
     caps = []
     for f_ in p.fns:
         if "exporter::http_listener" not in f_.path or "::tests::" in f_.path:
@@ -530,10 +530,10 @@ def run(ctx):
         if f_.hir:
             from facts import walk as _w
 
-            caps += [(f_, n) for n in _w(f_.hir) if n.get("k") == "MethodCall" and n.get("name") in LIMITS and "hyper" in (n.get("def") or n.get("resolved") or "")]
+            caps += [(f_, n) for n in _w(f_.hir) if n.get("k") == "MethodCall" and n.get("name") in LIMITS and ("hyper" in (n.get("def") or n.get("resolved") or "") or "linger" in (n.get("name") or ""))]
         elif f_.j.get("mir"):
-            caps += [(f_, {"ln": c.line, "name": callee_method_name(c)}) for c in f_.body.calls() if callee_method_name(c) in LIMITS and "hyper" in (c.resolved or "")]
-    chk.ob("C18.a", "http_listener [no request-size limit on the connection]", not caps, "the HTTP/1 connection builder is used with hyper's own limits" if not caps else f"the connection builder is given {caps[0][1].get('name')}(): requests whose head exceeds it (a long path or query, bulky headers) are answered 431 with an empty body instead of 200 with the rendering", f"{caps[0][0].file}:{caps[0][1].get('ln')}" if caps else "metrics-exporter-prometheus/src/exporter/http_listener.rs", nontrivial=False)
+            caps += [(f_, {"ln": c.line, "name": callee_method_name(c)}) for c in f_.body.calls() if callee_method_name(c) in LIMITS and ("hyper" in (c.resolved or "") or "linger" in callee_method_name(c))]
+    chk.ob("C18.a", "http_listener [no request-size limit on the connection]", not caps, "the HTTP/1 connection builder is used with hyper's own limits" if not caps else (f"the connection builder is given {caps[0][1].get('name')}(): requests whose head exceeds it (a long path or query, bulky headers) are answered 431 with an empty body instead of 200 with the rendering" if "linger" not in str(caps[0][1].get('name')) else f"accepted connections get {caps[0][1].get('name')}(): closing with unsent data becomes an abortive close, so a large rendering is cut short for a client that reads slowly"), f"{caps[0][0].file}:{caps[0][1].get('ln')}" if caps else "metrics-exporter-prometheus/src/exporter/http_listener.rs", nontrivial=False)
 
     # ---------------- C18.c
     aa = one_method(chk, "C18.c", p, PB, "add_allowed_address")
@@ -543,6 +543,18 @@ def run(ctx):
         adr = [c for c in calls if c.is_("FromStr::from_str", "str::parse", "<impl str>::parse") and "IpAddr" in (c.resolved or "") + repr(c.t.get("gargs")) + (c.t.get("self_ty") or "")]
         ok = len(net) >= 1 and len(adr) >= 1
         chk.ob("C18.c", f"{aa.path} [both syntaxes]", ok, "tries IpNet::from_str (CIDR) and IpAddr::from_str (plain address)" if ok else f"add_allowed_address parses only {'CIDR' if net else 'plain addresses' if adr else 'nothing'}: the documented 'IP address or subnet' is not accepted", aa.loc())
+        # every successfully parsed entry is listed: the push is conditional on the parse result only (a `skip what is already
+        # covered` test decides membership of later peers and must not drop a wider block)
+        pushes_ = [c for c in calls if c.fn is aa and c.is_("Vec<T, A>::push", "Vec<T>::push")]
+        for pc in pushes_:
+            cond = []
+            for dd, lab in gates(aa.body, pc.bb):
+                d_ = strip_sym(dd)
+                while isinstance(d_, tuple) and d_ and d_[0] == "un" and d_[1] == "Not":
+                    d_ = strip_sym(d_[2])
+                if isinstance(lab, bool) and isinstance(d_, tuple) and d_ and d_[0] == "call" and isinstance(d_[1], str) and strip_generics(d_[1]).split("::")[-1] in ("any", "all", "contains", "position", "find", "is_some", "is_none") and ("allowed" in sym_str(d_) or "iter" in sym_str(d_)):
+                    cond.append(sym_str(d_)[:60])
+            chk.ob("C18.d", f"{aa.path} [every parsed entry listed]", not cond, "the parsed network is pushed unconditionally" if not cond else f"the parsed network is only listed under `{cond[0]}`: an entry judged redundant is dropped, and peers it alone covers are refused", pc.loc(), nontrivial=False)
         conv = [c for c in calls if c.is_("From::from", "Into::into") and "IpNet" in (c.resolved or "") + (c.t.get("self_ty") or "") + repr(c.t.get("gargs"))]
         mapped = any(isinstance(x, tuple) and x[:2] == ("const", "fn") and "From" in str(x[2]) for c in calls for a in arg_syms(c) for x in sym_walk(a))
         newc = [c for c in calls if c.is_("IpNet::new", "Ipv4Net::new", "Ipv6Net::new", "IpNet::new_assert")]
